@@ -817,11 +817,16 @@ func (e *Env) SnapRevert(i int) {
 	e.Stats["op.SnapRevert"]++
 	before := e.F.Bytes()
 	var err error
+	e.Loading = model.NewState()
+	if n := len(sn.Flushes); n > 1 {
+		e.Loading = sn.Flushes[n-2].State
+	}
 	e.boundedScan("Snapshot.FlushRevert", func() {
 		e.tag("snap:FlushRevert")
 		err = sn.S.FlushRevert()
 		e.tag("")
 	})
+	e.Loading = nil
 	if e.Failed() {
 		return
 	}
@@ -900,11 +905,43 @@ func (e *Env) FlushRevert() {
 	}
 	e.Snaps = nil
 	var err error
-	e.boundedScan("FlushRevert", func() {
-		e.tag("FlushRevert")
-		err = e.S.FlushRevert()
-		e.tag("")
+	e.Loading = model.NewState()
+	if n := len(e.M.Flushes); n > 1 {
+		e.Loading = e.M.Flushes[n-2].State
+	}
+	// an iterator that its consumer has not finished with (one item taken, neither exhausted nor
+	// closed) is open while the store reverts; what it delivers afterwards is not judged
+	var openIt gkvlite.ItemIterator
+	if e.Cfg.IterAcrossRevert && !e.Cfg.MemOnly {
+		for _, n := range e.M.Live.Names() {
+			if c := e.H[n]; c != nil && len(e.M.Live.Colls[n].Items) > 1 {
+				e.tag("IterAsc(kv)")
+				openIt = c.IterateAscend(nil, e.Step%2 == 0)
+				openIt.Next()
+				e.tag("")
+				e.Stats["iterators-open-across-revert"]++
+				break
+			}
+		}
+	}
+	blocked, dump := RunDetectingDeadlock(func() {
+		e.boundedScan("FlushRevert", func() {
+			e.tag("FlushRevert")
+			err = e.S.FlushRevert()
+			e.tag("")
+		})
 	})
+	e.Loading = nil
+	if blocked {
+		e.Failf("C08/flushrevert-blocked-forever", "FlushRevert does not return and every goroutine of the process is parked on a channel or lock, so nothing can wake it:\n%s", firstGoroutines(dump, 6))
+		return
+	}
+	if openIt != nil {
+		e.tag("IterAsc(kv)")
+		openIt.Close()
+		e.tag("")
+		WaitIterProducers(20e9)
+	}
 	if e.Failed() {
 		return
 	}
@@ -931,6 +968,14 @@ func (e *Env) FlushRevert() {
 	for _, n := range e.S.GetCollectionNames() {
 		e.H[n] = e.S.GetCollection(n)
 	}
+}
+
+func firstGoroutines(dump string, n int) string {
+	parts := strings.Split(dump, "\n\n")
+	if len(parts) > n {
+		parts = parts[:n]
+	}
+	return strings.Join(parts, "\n\n")
 }
 
 // CollWrite calls Collection.Write (items and nodes, no root record).
